@@ -21,11 +21,11 @@ type HostCfg struct {
 	LegacyVersion  uint           `json:"legacy_version"`
 	Legacy         *SetCfg        `json:"legacy,omitempty"`
 	Versioned      map[int]SetCfg `json:"versioned,omitempty"`
-	Allowed        []string       `json:"allowed"`      // nil = unset
-	AllowedSet     bool           `json:"allowed_set"`  // true: use Allowed even if empty
-	TLS            string         `json:"tls"`          // "", "static", "auto"
+	Allowed        []string       `json:"allowed"`     // nil = unset
+	AllowedSet     bool           `json:"allowed_set"` // true: use Allowed even if empty
+	TLS            string         `json:"tls"`         // "", "static", "auto"
 	Mux            bool           `json:"mux"`
-	Launch         string         `json:"launch"`       // "cmd" (default), "runner"
+	Launch         string         `json:"launch"` // "cmd" (default), "runner"
 	StartTimeoutMs int            `json:"start_timeout_ms"`
 	SkipHostEnv    bool           `json:"skip_host_env"`
 	TempDir        string         `json:"temp_dir"`
